@@ -267,7 +267,7 @@ where
 	K: Keychain + 'a,
 {
 	// Create a potential output for this transaction
-	let key_id = keys::next_available_key(wallet, keychain_mask)?;
+	let key_id = keys::next_available_key(wallet, keychain_mask, &parent_key_id)?;
 	let keychain = wallet.keychain(keychain_mask)?;
 	let key_id_inner = key_id.clone();
 	let amount = slate.amount;
@@ -368,6 +368,7 @@ where
 		&coins,
 		wallet,
 		keychain_mask,
+		parent_key_id,
 		amount,
 		fee,
 		change_outputs,
@@ -509,6 +510,7 @@ pub fn inputs_and_change<'a, T: ?Sized, C, K, B>(
 	coins: &[OutputData],
 	wallet: &mut T,
 	keychain_mask: Option<&SecretKey>,
+	parent_key_id: &Identifier,
 	amount: u64,
 	fee: u64,
 	num_change_outputs: usize,
@@ -574,7 +576,8 @@ where
 				part_change
 			};
 
-			let change_key = wallet.next_child(keychain_mask)?;
+			// under the account the inputs come from, which need not be the active one
+			let change_key = wallet.next_child(keychain_mask, parent_key_id)?;
 
 			change_amounts_derivations.push((change_amount, change_key.clone(), None));
 			parts.push(build::output(change_amount, change_key));
